@@ -534,7 +534,7 @@ def run_c09(prop, tier, seed, replay, t0):
         return 1
     return run_node_property(
         prop, tier, seed, None, t0, module=module, gen=gen_auth.gen, n_quick=200, n_thorough=2500,
-        spec_prefixes=["unauthenticated-allowed", "unauthorized-allowed"],
+        spec_prefixes=["unauthenticated-allowed", "unauthorized-allowed", "obs-changed"],
         corr_kinds=None,
         assumptions=ASSUME_NODE + ["completeness is not claimed (the property is one-directional: no escalation)",
                                    "passwords are modelled by the string itself (scheme law: verify p (hash q) iff p = q)"],
@@ -886,7 +886,11 @@ def run_c13(prop, tier, seed, replay, t0):
             return gen_malformed.gen(rng, focus, k, maxops)
         g = [gen_catalog.gen, gen_storage.gen, gen_auth.gen][(k // 2) % 3]
         cfg, ops = g(rng, {0: "C06", 1: "C02", 2: "C10"}[(k // 2) % 3], k, maxops)
-        return gen_http.httpify(rng, cfg, ops, share=0.7)
+        if rng.random() < 0.4:
+            # server-side encryption on: the poll response is assembled from decrypted payloads
+            import gen_crypto
+            cfg["enc"] = gen_crypto.key(rng)
+        return gen_http.httpify(rng, cfg, ops, share=0.7 if rng.random() < 0.7 else 0.0)
     return run_node_property(
         prop, tier, seed, None, t0, module=module, gen=mixed, n_quick=128, n_thorough=2500, http=False,
         spec_prefixes=["malformed-frame-effect", "obs-changed", "poll-", "get-offset", "store-offset", "figures-"], corr_kinds=None,
